@@ -137,6 +137,63 @@ where
     let got: Vec<T> = mk().step_by(2).take(n + 2).map(&proj).collect();
     let want: Vec<&T> = expected.iter().step_by(2).collect();
     ensure!(got.iter().collect::<Vec<_>>() == want, sig("step_by"), "{what}: step_by(2) yields {got:?}, want {want:?}");
+    // internal iteration: `fold` and what the standard library builds on it / on `try_fold`
+    // (`for_each`, `collect`, `find`, `position`, `any`, `all`) visit the `next()` sequence, in order
+    let got: Vec<T> = mk().fold(Vec::new(), |mut v, x| {
+        if v.len() < n + 2 {
+            v.push(proj(x));
+        }
+        v
+    });
+    ensure!(got.as_slice() == expected, sig("fold"), "{what}: fold() visits {} items ({got:?}), next() yields {n}", got.len());
+    let mut got: Vec<T> = Vec::new();
+    mk().for_each(|x| {
+        if got.len() < n + 2 {
+            got.push(proj(x))
+        }
+    });
+    ensure!(got.as_slice() == expected, sig("for_each"), "{what}: for_each() visits {} items ({got:?}), next() yields {n}", got.len());
+    let got: Vec<T> = mk().take(n + 2).collect::<Vec<_>>().into_iter().map(&proj).collect();
+    ensure!(got.as_slice() == expected, sig("collect"), "{what}: collect() gives {} items, next() yields {n}", got.len());
+    // short-circuiting searches stop at item k and the iterator goes on behind it
+    let k = (salt as usize >> 24) % (n + 1);
+    let mut seen = 0usize;
+    let mut it = mk();
+    let found = it
+        .find(|_| {
+            seen += 1;
+            seen == k + 1
+        })
+        .map(&proj);
+    ensure!(found.as_ref() == expected.get(k), sig("find"), "{what}: find(the item visited as number {k}) = {found:?}, item {k} of the next() sequence is {:?}", expected.get(k));
+    if k < n {
+        let after = it.next().map(&proj);
+        ensure!(after.as_ref() == expected.get(k + 1), sig("next-after-find"), "{what}: next() after find() stopped at item {k} = {after:?}, want {:?}", expected.get(k + 1));
+    }
+    let mut seen = 0usize;
+    let pos = mk().position(|_| {
+        seen += 1;
+        seen == k + 1
+    });
+    ensure!(pos == if k < n { Some(k) } else { None }, sig("position"), "{what}: position(the item visited as number {k}) = {pos:?} of {n} items");
+    let mut seen = 0usize;
+    let all = mk().all(|_| {
+        seen += 1;
+        seen <= n + 1
+    });
+    ensure!(all && seen == n, sig("all"), "{what}: all() visited {seen} items, next() yields {n}");
+    let mut seen = 0usize;
+    let any = mk().any(|_| {
+        seen += 1;
+        seen > n + 1
+    });
+    ensure!(!any && seen == n, sig("any"), "{what}: any() visited {seen} items, next() yields {n}");
+    // `by_ref`: a prefix taken through a borrowed iterator, then the rest through the iterator itself
+    let j2 = (salt as usize >> 32) % (n + 1);
+    let mut it = mk();
+    let mut got: Vec<T> = it.by_ref().take(j2).map(&proj).collect();
+    got.extend(it.take(n + 2).map(&proj));
+    ensure!(got.as_slice() == expected, sig("by_ref-prefix-then-rest"), "{what}: {j2} items through by_ref().take(), then the rest: {} items, next() yields {n}", got.len());
     // past the end it stays at the end
     let mut it = mk();
     let _ = it.nth(n);
